@@ -304,6 +304,17 @@ def correspondence(prop, cfg, tier, seed, tag="main", extra=None):
         return {"error": "harness exited %d:\n%s" % (rc, out[-3000:]), "results": [], "meta": {}, "dir": out_dir}
     meta = json.load(open(os.path.join(out_dir, "meta.json")))
     shards = sorted(f for f in os.listdir(out_dir) if re.match(r"cases_\d+\.v$", f))
+    # the header of a case file may import modules outside the classifier's own cone: build them
+    if shards:
+        head = "".join(open(os.path.join(out_dir, shards[0])).readlines()[:12])
+        mods = set()
+        for m in re.finditer(r"From\s+Okv\s+Require\s+(?:Import\s+|Export\s+)?(.*?)\.(?=\s|$)", head, re.S):
+            mods.update(x.replace(".", "/") + ".vo" for x in m.group(1).split())
+        mods = sorted(x for x in mods if os.path.exists(os.path.join(COQ, x[:-1])))
+        if mods:
+            rc2, out2 = make_targets(mods)
+            if rc2 != 0:
+                return {"error": "coq build of modules imported by the case files failed:\n" + out2[-2000:], "results": [], "meta": meta, "dir": out_dir}
     results = []
     err = None
     with concurrent.futures.ThreadPoolExecutor(max_workers=16) as ex:
